@@ -48,7 +48,7 @@ pub struct TrieNode<V> {
 /// (so a router that wants to capture them can splice them into a rewrite
 /// template). `Regexp` carries both the matched bytes and the regex itself
 /// so the caller can re-run `Regex::captures` to pull explicit groups.
-#[derive(Debug)]
+#[derive(Debug, Clone)]
 pub enum TrieSubMatch<'a, 'b> {
     Wildcard(&'a [u8]),
     Regexp(&'a [u8], &'b Regex),
@@ -470,34 +470,35 @@ impl<V: Debug + Clone> TrieNode<V> {
             "a dotted split must place the separator at the head of the suffix",
         );
 
-        match self.children.get(suffix) {
-            Some(child) => child.lookup_with_path(prefix, accept_wildcard, trace),
-            None => {
-                if prefix.is_empty() && self.wildcard.is_some() && accept_wildcard {
-                    let segment = if !suffix.is_empty() && suffix[0] == b'.' {
-                        &suffix[1..]
-                    } else {
-                        suffix
-                    };
-                    trace.push(TrieSubMatch::Wildcard(segment));
-                    self.wildcard.as_ref().map(|kv| (kv, trace))
-                } else {
-                    for (regexp, child) in self.regexps.iter() {
-                        let segment = if !suffix.is_empty() && suffix[0] == b'.' {
-                            &suffix[1..]
-                        } else {
-                            suffix
-                        };
-                        if regexp.is_match(segment) {
-                            let mut next = trace;
-                            next.push(TrieSubMatch::Regexp(segment, regexp));
-                            return child.lookup_with_path(prefix, accept_wildcard, next);
-                        }
-                    }
-                    None
+        // Most specific first: the literal child, then the wildcard, then the
+        // regex segments in registration order. A branch that matches this
+        // segment but holds nothing for the rest of the name does not hide
+        // the following ones (a literal sibling `v.x1.example.com` must not
+        // make `w./x[0-9]/.example.com` unreachable for `w.x1.example.com`).
+        if let Some(child) = self.children.get(suffix) {
+            if let Some(found) = child.lookup_with_path(prefix, accept_wildcard, trace.clone()) {
+                return Some(found);
+            }
+        }
+        let segment = if !suffix.is_empty() && suffix[0] == b'.' {
+            &suffix[1..]
+        } else {
+            suffix
+        };
+        if prefix.is_empty() && self.wildcard.is_some() && accept_wildcard {
+            trace.push(TrieSubMatch::Wildcard(segment));
+            return self.wildcard.as_ref().map(|kv| (kv, trace));
+        }
+        for (regexp, child) in self.regexps.iter() {
+            if regexp.is_match(segment) {
+                let mut next = trace.clone();
+                next.push(TrieSubMatch::Regexp(segment, regexp));
+                if let Some(found) = child.lookup_with_path(prefix, accept_wildcard, next) {
+                    return Some(found);
                 }
             }
         }
+        None
     }
 
     pub fn lookup(&self, partial_key: &[u8], accept_wildcard: bool) -> Option<&KeyValue<Key, V>> {
@@ -523,35 +524,28 @@ impl<V: Debug + Clone> TrieNode<V> {
             "the suffix the trie matches children against must be non-empty",
         );
 
-        match self.children.get(suffix) {
-            Some(child) => child.lookup(prefix, accept_wildcard),
-            None => {
-                //println!("no child found, testing wildcard and regexps");
-
-                if prefix.is_empty() && self.wildcard.is_some() && accept_wildcard {
-                    //println!("no dot, wildcard applies");
-                    self.wildcard.as_ref()
-                } else {
-                    //println!("there's still a subdomain, wildcard does not apply");
-
-                    for (regexp, child) in self.regexps.iter() {
-                        let suffix = if suffix[0] == b'.' {
-                            &suffix[1..]
-                        } else {
-                            suffix
-                        };
-                        //println!("testing regexp: {} on suffix {}", r.as_str(), str::from_utf8(s).unwrap());
-
-                        if regexp.is_match(suffix) {
-                            //println!("matched");
-                            return child.lookup(prefix, accept_wildcard);
-                        }
-                    }
-
-                    None
+        // same order and fall-through as `lookup_with_path`
+        if let Some(child) = self.children.get(suffix) {
+            if let Some(found) = child.lookup(prefix, accept_wildcard) {
+                return Some(found);
+            }
+        }
+        if prefix.is_empty() && self.wildcard.is_some() && accept_wildcard {
+            return self.wildcard.as_ref();
+        }
+        let segment = if suffix[0] == b'.' {
+            &suffix[1..]
+        } else {
+            suffix
+        };
+        for (regexp, child) in self.regexps.iter() {
+            if regexp.is_match(segment) {
+                if let Some(found) = child.lookup(prefix, accept_wildcard) {
+                    return Some(found);
                 }
             }
         }
+        None
     }
 
     pub fn lookup_mut(
